@@ -26,12 +26,17 @@ def run(ck, ctx):
                      "derived from the segments actually folded, never by an ordering test on ids")
     ck.rule("R13.7", "tombstones are judged after the fold: is_tombstone-based dropping is applied to the folded per-key map, never "
                      "to raw deltas inside the segment read loop (an expired tombstone must still shadow older values of its key)")
+    ck.rule("R13.8", "everything folded is written: each iteration of compaction's loop over the folded per-key map passes "
+                     "SegmentWriter::write_delta, its error is propagated, and no adaptor filters the map on the way to the writer "
+                     "(dropping is only done by the tombstone rule R13.7 before this loop)")
     ck.nd("state equality for all layouts and interleavings")
     for cfg in ctx.configs:
         prog = ctx.prog(cfg)
         ck.configs.append(cfg)
         ck.fn_count += len(prog.fns)
         _rules(ck, prog, cfg)
+        from . import c12
+        c12._r127(ck, prog, [f for f in prog.lib_fns() if f.file == "src/streaming/compaction.rs"], cfg, rid="R13.8", floor=1)
 
 
 def _wall_clock_locals(fn):
